@@ -39,6 +39,12 @@ DEFAULTS = ["d0", "d1", "d2", "", "", "d 3", 'd"4', "d\\5", LONG]
 PATHS = ["../x", "../y", "../z", "../w", "", "../a b", '../q"c']
 
 
+# small enumerations of equal size that differ only in one name -- at value 0, or at a later value -- or not at all:
+# union member de-duplication (YangType.Equal on the name -> value maps) has to tell them apart exactly
+ENUM_CLUSTER = [["up"], ["down"], ["on", "shared"], ["off", "shared"], ["shared", "on"], ["shared", "off"],
+                ["a", "b"], ["a", "c"], ["x", "y", "z"], ["w", "y", "z"], ["x", "y", "w"], ["up"], ["on", "shared"]]
+
+
 def yq(s):
     """a YANG double-quoted string"""
     return '"' + s.replace("\\", "\\\\").replace('"', '\\"') + '"'
@@ -462,9 +468,9 @@ class Gen:
             t.fd = rnd.randint(1, 18)
             t.fdset = True
         elif k == "enumeration":
-            t.enums = rnd.sample(ENUM_NAMES, rnd.randint(1, 4))
+            t.enums = list(rnd.choice(ENUM_CLUSTER)) if rnd.random() < 0.5 else rnd.sample(ENUM_NAMES, rnd.randint(1, 4))
         elif k == "bits":
-            t.bits = rnd.sample(MEMBERS, rnd.randint(1, 4))
+            t.bits = list(rnd.choice(ENUM_CLUSTER)) if rnd.random() < 0.3 else rnd.sample(MEMBERS, rnd.randint(1, 4))
         elif k == "leafref":
             t.path = rnd.choice(PATHS)
         elif k == "identityref":
@@ -472,6 +478,23 @@ class Gen:
         elif k == "union":
             for _ in range(rnd.randint(1, 3)):
                 t.members.append(self.make_ref(S, scope, nest + 1))
+            if rnd.random() < 0.4:
+                # several enumeration / bits members of like shape, inline or through typedefs
+                cs = [(f, td) for f, td in self.candidates(S, scope, MAXCHAIN) if td.type.kind in ("enumeration", "bits")]
+                for _ in range(rnd.randint(2, 4)):
+                    if cs and rnd.random() < 0.4:
+                        f, td = rnd.choice(cs)
+                        u = TRef(f)
+                        u.target, u.kind, u.depth, u.fdset = td, td.type.kind, td.type.depth + 1, False
+                    else:
+                        u = TRef(rnd.choice(["enumeration", "enumeration", "bits"]))
+                        u.kind, u.depth, u.fdset = u.name, 0, False
+                        if u.name == "bits":
+                            u.bits = list(rnd.choice(ENUM_CLUSTER))
+                        else:
+                            u.enums = list(rnd.choice(ENUM_CLUSTER))
+                    t.members.append(u)
+                rnd.shuffle(t.members)
         self.restrict(S, scope, t, nest, first=True)
         return t
 
@@ -888,6 +911,30 @@ def corpus():
     td(m0.top, "lng", ref("string"), units=LONG, default=LONG)
     lf(m0.top, "l8", ref("lng"))
     out.append(("empty-overrides", False, Schema([m0])))
+    # union members that are enumerations of equal size differing in one name (at value 0 / at a later value),
+    # inline, through typedef chains and from an imported module; true duplicates are dropped, nothing else
+    m0 = mod("m0", "p")
+    td(m0.top, "up", ref("enumeration", enums=["up"]))
+    td(m0.top, "down", ref("enumeration", enums=["down"]))
+    td(m0.top, "down2", ref("down"), units="u")
+    td(m0.top, "ud", ref("union", members=[ref("up"), ref("down")]))
+    td(m0.top, "ud2", ref("ud"))
+    lf(m0.top, "chained", ref("ud2"))
+    lf(m0.top, "direct", ref("union", members=[ref("enumeration", enums=["on", "shared"]),
+                                               ref("enumeration", enums=["off", "shared"]), ref("up"),
+                                               ref("enumeration", enums=["on", "shared"]),
+                                               ref("enumeration", enums=["shared", "on"]), ref("p:down"),
+                                               ref("enumeration", enums=["up"])]))
+    lf(m0.top, "later", ref("union", members=[ref("enumeration", enums=["a", "b"]), ref("enumeration", enums=["a", "c"]),
+                                              ref("enumeration", enums=["x", "y", "z"]),
+                                              ref("enumeration", enums=["w", "y", "z"])]))
+    lf(m0.top, "added", ref("ud2", members=[ref("down2"), ref("enumeration", enums=["left"]), ref("down")]))
+    lf(m0.top, "bits", ref("union", members=[ref("bits", bits=["up"]), ref("bits", bits=["down"])]))
+    m1 = mod("m1", "q")
+    m1.imports = [("x", "m0")]
+    td(m1.top, "up", ref("enumeration", enums=["other"]))
+    lf(m1.top, "imported", ref("union", members=[ref("x:up"), ref("up"), ref("x:down"), ref("x:ud")]))
+    out.append(("union-of-small-enums", False, Schema([m0, m1])))
     # a later typedef of the same name in the same scope replaces the earlier one in the dictionary
     m0 = mod("m0", "p")
     td(m0.top, "t0", ref("nosuch"))
